@@ -8,12 +8,16 @@ Reading of a model tree as a sheet of the specification: Impl/CssRulesDenote.lea
 of the opaque texts that satisfies `Reading.Sound`).
 
 Every theorem is for ALL rule trees (any length, any nesting depth), all readings, environments, elements and
-properties.  Each hypothesis is something the PROOF needs and the code does not establish by itself:
-* `R.Sound`: the reading respects what the code treats as equal / safe / dead.  Real user agents violate `sel_eq` for
-  `:hover` vs `:hover()` (SSPseudoClass.Equal cannot tell them apart; the second is invalid) – see the report.
-* `tameRules`: a style rule that may be merged (some selector is IE7-"safe") or dropped as dead contains only
-  declarations.  `merge_needs_tameness` below shows that `mangleFile` changes a winner without it (nested rules:
-  `&` takes the specificity of the whole merged list) – a defect of the code, reproduced on the real binary.
+properties.  The ONLY hypothesis is `R.Sound`: the reading respects what the code treats as equal (`Equal`), safe
+(`isSafeSelectors` ⇒ the user agent understands the selector) and dead (`:is()` matches nothing).  There is no side
+condition on the style sheet any more.
+
+History: an earlier version of these theorems needed a side condition (`tameRules`: no nested rules inside a style
+rule that is merged or dropped as dead) and a `sel_eq` that identified `:x` with `:x()`; the proof obligations that
+the code did not meet were three defects (merging parents of nested rules changes the specificity of `&`;
+`SSPseudoClass.Equal` could not tell `:x` from `:x()`; a dead `:is(){@layer x{}}` was dropped with its layer
+declaration).  They are repaired in esbuild (`containsNestedRules`, `Args == nil`), the model follows, and the old
+counterexamples are kept below as examples on which input and output now agree.
 -/
 import EsbuildModel.Lemmas.CssRules
 import EsbuildModel.Lemmas.CssRulesExample
@@ -43,29 +47,30 @@ theorem remove_earlier_duplicate_preserves_cascade (R : Reading Elem Env Pr Val)
   exact ((hhead.append_left (denoteRules R none mid)).equiv).symm
 
 /-- `RemoveDeadRulesInPlace` as the linker runs it (one remover, last file first, over the top-level rules of all
-files of a chunk) preserves every winner.  Hypothesis: a top-level rule that is dropped because all its selectors are
-dead (`:is()`) contains only declarations. -/
+files of a chunk) preserves every winner: both the removal of duplicates and the removal of rules all of whose
+selectors are dead (which the code only does when the rule has no nested rules). -/
 theorem removeDeadRules_preserves_cascade (R : Reading Elem Env Pr Val) (hR : R.Sound) (files : List (List Rule))
-    (hflat : ∀ f ∈ files, ∀ r ∈ f, r.deadFlat = true) (env : Env) (e : Elem) (p : Pr) :
+    (env : Env) (e : Elem) (p : Pr) :
     winner (denoteSheet R (linkFiles files)) env e p = winner (denoteSheet R files) env e p :=
-  (linkFiles_equiv R hR (fun _ => True) files hflat).winner_eq env e p
+  (linkFiles_equiv R hR (fun _ => True) files).winner_eq env e p
 
 /-! ## 2. merging adjacent rules -/
 
-/-- `a{B} b{B'}` → `a,b{B}` (what `mangleRules` does when `RulesEqual(B', B)` and both lists are
-`isSafeSelectors`; selectors already present are not repeated) preserves every winner PROVIDED the user agent
-understands every safe selector (`R.Sound.safe_sel`) and the body consists of declarations only. -/
+/-- `a{B} b{B'}` → `a,b{B}` under EXACTLY the conditions of `mangleRules` (`RulesEqual(B', B)`, both lists
+`isSafeSelectors`, `!containsNestedRules(B')`; selectors already present are not repeated) preserves every winner
+PROVIDED the user agent understands every safe selector (`R.Sound.safe_sel`). -/
 theorem merge_adjacent_preserves_cascade (R : Reading Elem Env Pr Val) (hR : R.Sound)
     (pre post : List Rule) (prevSels sels : List Complex) (prevBody body : List Rule)
     (heq : rulesEq body prevBody = true) (h1 : isSafeSelectors sels = true) (h2 : isSafeSelectors prevSels = true)
-    (hflat : body.all Rule.isDeclOrComment = true) (env : Env) (e : Elem) (p : Pr) :
+    (hnn : containsNestedRules body = false) (env : Env) (e : Elem) (p : Pr) :
     winner (denoteSheet R [pre ++ .sel (mergeSelectors prevSels sels) prevBody :: post]) env e p =
       winner (denoteSheet R [pre ++ .sel prevSels prevBody :: .sel sels body :: post]) env e p := by
   apply EquivOn.winner_eq
   simp only [denoteSheet, List.flatten_cons, List.flatten_nil, List.append_nil, denoteRules_append, denoteRules]
   refine EquivOn.append (EquivOn.refl _ _) ?_
   rw [← List.append_assoc]
-  exact EquivOn.append (equiv_merge_rules R hR _ none prevSels sels prevBody body heq hflat h1 h2).symm
+  exact EquivOn.append
+    (equiv_merge_rules R hR _ none prevSels sels prevBody body heq (plain_of_not_nested hnn) h1 h2).symm
     (EquivOn.refl _ _)
 
 /-! ## 3. unwrapping a nested `@media` with the same queries -/
@@ -87,62 +92,38 @@ theorem unwrap_nested_same_media_preserves_cascade (R : Reading Elem Env Pr Val)
 
 /-- what `css_parser.Parse` does to the rules of one file under `MinifySyntax` -/
 theorem mangleFile_preserves_cascade (R : Reading Elem Env Pr Val) (hR : R.Sound) (rules : List Rule)
-    (ht : tameRules rules = true) (env : Env) (e : Elem) (p : Pr) :
+    (env : Env) (e : Elem) (p : Pr) :
     winner (denoteSheet R [mangleFile rules]) env e p = winner (denoteSheet R [rules]) env e p := by
   apply EquivOn.winner_eq
-  obtain ⟨c1, c2⟩ := mangleChildren_spec R hR rules (fun _ => True) none [] (by simp) ht
-  obtain ⟨_, m2⟩ := mangleRules_spec R hR (fun _ => True) none [] (by simp) true _ c1
+  have c2 := mangleChildren_spec R hR rules (fun _ => True) none [] (by simp)
+  have m2 := mangleRules_spec R hR (fun _ => True) none [] (by simp) true (mangleChildren [] rules)
   simpa [denoteSheet, mangleFile] using EquivOn.trans m2 c2
-
-theorem mangleFile_tame (rules : List Rule) (ht : tameRules rules = true) : tameRules (mangleFile rules) = true := by
-  -- tameness does not depend on the reading: use the trivial one
-  let R : Reading Unit Unit Unit Unit :=
-    { sel := fun _ => ⟨fun _ => false, ⟨0, 0, 0⟩, true⟩, nest := fun S _ => ⟨fun _ => false, ⟨0, 0, 0⟩, S.all (·.understood)⟩,
-      decl := fun _ _ _ => none, media := fun _ _ => true, group := fun _ _ => none }
-  have hR : R.Sound :=
-    { sel_eq := fun _ _ _ => rfl, nest_eq := fun _ _ _ _ => rfl
-      nest_parent := by
-        intro S S' c h
-        show (⟨_, _, S.all (·.understood)⟩ : Selector Unit) = ⟨_, _, S'.all (·.understood)⟩
-        have : S.all (·.understood) = S'.all (·.understood) := by
-          rw [Bool.eq_iff_iff, List.all_eq_true, List.all_eq_true]
-          exact ⟨fun hh x hx => hh x ((h x).mpr hx), fun hh x hx => hh x ((h x).mp hx)⟩
-        rw [this]
-      group_eq := fun _ _ _ _ => rfl, dead_sel := fun _ _ _ => rfl, dead_nest := fun _ _ _ _ => rfl
-      safe_sel := fun _ _ => rfl, safe_nest := fun _ _ _ => rfl }
-  obtain ⟨c1, _⟩ := mangleChildren_spec R hR rules (fun _ => True) none [] (by simp) ht
-  exact (mangleRules_spec R hR (fun _ => True) none [] (by simp) true _ c1).1
 
 /-- Every file parsed with `MinifySyntax` (`mangleRules` at every level of the tree, duplicate selectors dropped),
 then the linker's duplicate removal across the files: the computed style of every element is the same as for the
-unminified files concatenated. -/
+unminified files concatenated – for every chunk, with no side condition. -/
 theorem minifyChunk_preserves_cascade (R : Reading Elem Env Pr Val) (hR : R.Sound) (files : List (List Rule))
-    (ht : ∀ f ∈ files, tameRules f = true) (env : Env) (e : Elem) (p : Pr) :
+    (env : Env) (e : Elem) (p : Pr) :
     winner (denoteSheet R (minifyChunk files)) env e p = winner (denoteSheet R files) env e p := by
   apply EquivOn.winner_eq
-  have hfiles : ∀ (fs : List (List Rule)), (∀ f ∈ fs, tameRules f = true) →
+  have hfiles : ∀ (fs : List (List Rule)),
       EquivOn (fun _ : Env => True) (denoteSheet R (fs.map mangleFile)) (denoteSheet R fs) := by
     intro fs
     induction fs with
-    | nil => intro _; exact EquivOn.refl _ _
+    | nil => exact EquivOn.refl _ _
     | cons f fs ih =>
-      intro h
       simp only [denoteSheet, List.map_cons, List.flatten_cons, denoteRules_append]
-      refine EquivOn.append ?_ (ih (fun g hg => h g (by simp [hg])))
-      obtain ⟨c1, c2⟩ := mangleChildren_spec R hR f (fun _ => True) none [] (by simp) (h f (by simp))
-      obtain ⟨_, m2⟩ := mangleRules_spec R hR (fun _ => True) none [] (by simp) true _ c1
+      refine EquivOn.append ?_ ih
+      have c2 := mangleChildren_spec R hR f (fun _ => True) none [] (by simp)
+      have m2 := mangleRules_spec R hR (fun _ => True) none [] (by simp) true (mangleChildren [] f)
       exact EquivOn.trans m2 c2
-  refine EquivOn.trans (linkFiles_equiv R hR _ _ ?_) (hfiles files ht)
-  intro f hf r hr
-  obtain ⟨g, hg, rfl⟩ := List.mem_map.mp hf
-  have := mangleFile_tame g (ht g hg)
-  rw [tameRules_iff] at this
-  exact tameRule.deadFlat (this r hr)
+  exact EquivOn.trans (linkFiles_equiv R hR _ _) (hfiles files)
 
-/-! ## non-vacuity, and what happens without the hypotheses
+/-! ## non-vacuity, the necessity of `safe_sel`, and the three repaired defects
 
 The reading `Example.reading` (Lemmas/CssRulesExample.lean): an element is (its own class/id names, those of its
-ancestors); `& child` is `:is(parent list) child`; the user agent does not know `:-x-foo`; Env = truth of `@media m`. -/
+ancestors); `& child` is `:is(parent list) child`; the user agent does not know `:-x-foo` and rejects `:hover()`;
+Env = truth of `@media m`. -/
 
 namespace Examples
 
@@ -152,10 +133,10 @@ def cls (n : String) : Compound := ⟨0, 0, none, [.cls n]⟩
 def idSel (n : String) : Compound := ⟨0, 0, none, [.hash n]⟩
 def color (v : String) (imp : Bool := false) : Rule := .decl "color" v imp
 
-/-- the hypotheses of the theorems can be met: a sound reading … -/
+/-- the hypothesis of the theorems can be met, by a reading that tells `:hover` from `:hover()` -/
 example : reading.Sound := reading_sound
 
-/-- … and a tame chunk of two files on which every modelled rewrite fires:
+/-- a chunk of two files on which every modelled rewrite fires:
 file 1: `.a{color:red} .b{color:red} @media m{ .a{color:blue} @media m{.b{color:blue}} .c{} }  #i.a{color:green}`
 file 2: `@layer l{} @layer k{@layer l{.a{color:pink!important}}}  #i.a{color:green}  .a,.a{width:1}` -/
 def file1 : List Rule :=
@@ -165,8 +146,6 @@ def file1 : List Rule :=
 def file2 : List Rule :=
   [.layerBlock [["l"]] 1 [], .layerBlock [["k"]] 2 [.layerBlock [["l"]] 3 [.sel [[cls "a"]] [color "pink" true]]],
    .sel [[⟨0, 0, none, [.hash "i", .cls "a"]⟩]] [color "green"], .sel [[cls "a"], [cls "a"]] [.decl "width" "1" false]]
-
-example : tameRules file1 = true ∧ tameRules file2 = true := by decide
 
 set_option maxRecDepth 8192 in
 /-- merged `.a,.b`, inner `@media m` unwrapped, empty `.c{}` gone, `#i.a{…}` of file 1 removed as a
@@ -190,11 +169,11 @@ example : winner (denoteSheet reading [file1, file2]) true ⟨["a"], []⟩ "colo
 /-- hypotheses of `remove_earlier_duplicate_preserves_cascade` and `merge_adjacent_preserves_cascade` -/
 example : ruleEq (.sel [[cls "a"]] [color "red"]) (.sel [[cls "a"]] [color "red"]) = true ∧
     rulesEq [color "red"] [color "red"] = true ∧ isSafeSelectors [[cls "a"]] = true ∧
-    isSafeSelectors [[cls "b"]] = true ∧ [color "red"].all Rule.isDeclOrComment = true := by decide
+    isSafeSelectors [[cls "b"]] = true ∧ containsNestedRules [color "red"] = false := by decide
 
-/-- WITHOUT "the user agent understands both lists": merging `.a{color:red}` with `.b:-x-foo{color:red}` (which the
-code refuses, `isSafeSelectors` is false) would kill the rule for `.a` – the unknown pseudo-class invalidates the
-whole merged selector list. -/
+/-- WITHOUT "the user agent understands both lists" (`safe_sel`; the reason why `isSafeSelectors` exists): merging
+`.a{color:red}` with `.b:-x-foo{color:red}` – which the code refuses, `isSafeSelectors` is false – would kill the rule
+for `.a`: the unknown pseudo-class invalidates the whole merged selector list. -/
 def xfoo : Complex := [⟨0, 0, none, [.cls "b", .pseudo "-x-foo" false "" false]⟩]
 example : isSafeSelectors [xfoo] = false ∧
     winner (denoteSheet reading [[.sel [[cls "a"]] [color "red"], .sel [xfoo] [color "red"]]]) true ⟨["a"], []⟩ "color"
@@ -202,48 +181,62 @@ example : isSafeSelectors [xfoo] = false ∧
     winner (denoteSheet reading [[.sel (mergeSelectors [[cls "a"]] [xfoo]) [color "red"]]]) true ⟨["a"], []⟩ "color"
       = none := by decide
 
-/-- WITHOUT tameness `mangleFile` changes a winner (DEFECT of the code, same result on the real binary):
-`.c.d.x{color:blue}  .a{.x{color:red}}  #b{.x{color:red}}` becomes `… .a,#b{.x{color:red}}`; for `<* class=a><* class="x c d">`
-the nested rule had specificity (0,2,0) < (0,3,0) and now has (1,1,0): blue becomes red. -/
+/-- REPAIRED (was `merge_needs_tameness`): `.c.d.x{color:blue}  .a{.x{color:red}}  #b{.x{color:red}}` – the two parents
+of equal nested rules are no longer merged (merged, `&` = `:is(.a,#b)` would lift the nested rule from (0,2,0) to
+(1,1,0) and turn blue into red for `<* class=a><* class="x c d">`); input and output agree. -/
 def nested : List Rule :=
   [.sel [[⟨0, 0, none, [.cls "c", .cls "d", .cls "x"]⟩]] [color "blue"],
    .sel [[cls "a"]] [.sel [[cls "x"]] [color "red"]], .sel [[idSel "b"]] [.sel [[cls "x"]] [color "red"]]]
 set_option maxRecDepth 8192 in
-theorem merge_needs_tameness : tameRules nested = false ∧
-    showRules (mangleFile nested) = showRules [.sel [[⟨0, 0, none, [.cls "c", .cls "d", .cls "x"]⟩]] [color "blue"],
-      .sel [[cls "a"], [idSel "b"]] [.sel [[cls "x"]] [color "red"]]] ∧
+theorem nested_rules_not_merged :
+    showRules (mangleFile nested) = showRules nested ∧
     winner (denoteSheet reading [nested]) true ⟨["x", "c", "d"], ["a"]⟩ "color" = some "blue" ∧
-    winner (denoteSheet reading [mangleFile nested]) true ⟨["x", "c", "d"], ["a"]⟩ "color" = some "red" := by decide
+    winner (denoteSheet reading [mangleFile nested]) true ⟨["x", "c", "d"], ["a"]⟩ "color" = some "blue" ∧
+    -- what the merged rule would have given:
+    winner (denoteSheet reading [[nested.head!, .sel [[cls "a"], [idSel "b"]] [.sel [[cls "x"]] [color "red"]]]]) true
+      ⟨["x", "c", "d"], ["a"]⟩ "color" = some "red" := by decide
 
-/-- WITHOUT `deadFlat`: `:is(){@layer x{}}  @layer y{.a{color:red}}  @layer x{.a{color:blue}}` – dropping the dead
-rule drops the first declaration of layer `x`, the layer order flips (same output on the real binary). -/
+set_option maxRecDepth 8192 in
+/-- nested rules inside a rule that is removed as a DUPLICATE need no condition
+(`remove_earlier_duplicate_preserves_cascade` has none): `.a{.x{color:red}} .b{color:blue} .a{.x{color:red}}` -/
+example :
+    (linkFiles [[.sel [[cls "a"]] [.sel [[cls "x"]] [color "red"]], .sel [[cls "b"]] [color "blue"],
+      .sel [[cls "a"]] [.sel [[cls "x"]] [color "red"]]]]).map showRules =
+      [showRules [.sel [[cls "b"]] [color "blue"], .sel [[cls "a"]] [.sel [[cls "x"]] [color "red"]]]] ∧
+    winner (denoteSheet reading [[.sel [[cls "a"]] [.sel [[cls "x"]] [color "red"]], .sel [[cls "b"]] [color "blue"],
+      .sel [[cls "a"]] [.sel [[cls "x"]] [color "red"]]]]) true ⟨["x", "b"], ["a"]⟩ "color" = some "red" ∧
+    winner (denoteSheet reading (linkFiles [[.sel [[cls "a"]] [.sel [[cls "x"]] [color "red"]],
+      .sel [[cls "b"]] [color "blue"], .sel [[cls "a"]] [.sel [[cls "x"]] [color "red"]]]])) true ⟨["x", "b"], ["a"]⟩ "color"
+      = some "red" := by decide
+
+/-- REPAIRED: `:is(){@layer x{}}  @layer y{.a{color:red}}  @layer x{.a{color:blue}}` – the dead rule is kept because it
+contains a nested rule (dropping it dropped the first declaration of layer `x` and flipped the layer order: red
+became blue); a dead rule with declarations only is still dropped. -/
 def deadLayer : List Rule :=
   [.sel [[⟨0, 0, none, [.pseudoList "is" "" true]⟩]] [.layerBlock [["x"]] 1 []],
    .layerBlock [["y"]] 2 [.sel [[cls "a"]] [color "red"]], .layerBlock [["x"]] 3 [.sel [[cls "a"]] [color "blue"]]]
 set_option maxRecDepth 8192 in
-example : (linkFiles [deadLayer]).map showRules = [showRules deadLayer.tail] ∧
+example : (linkFiles [deadLayer]).map showRules = [showRules deadLayer] ∧
     winner (denoteSheet reading [deadLayer]) true ⟨["a"], []⟩ "color" = some "red" ∧
-    winner (denoteSheet reading (linkFiles [deadLayer])) true ⟨["a"], []⟩ "color" = some "blue" := by decide
-
-/-- WITHOUT `Sound.sel_eq`: the code's `Equal` identifies `a:hover` with `a:hover()` (no arguments vs. an empty
-argument list); a user agent that rejects the second loses the rule when the FIRST copy is removed (same output on the
-real binary). -/
-def hover (hasArgs : Bool) : Complex := [⟨0, 0, none, [.cls "a", .pseudo "hover" hasArgs "" false]⟩]
-def strict : Reading El Bool String String :=
-  { reading with sel := fun c => { selOf c with understood := !c.any (fun cp => cp.subs.any (fun s =>
-      match s with | .pseudo _ hasArgs _ _ => hasArgs | _ => false)) } }
-example : complexEq (hover false) (hover true) = true ∧ strict.sel (hover false) ≠ strict.sel (hover true) ∧
-    (linkFiles [[.sel [hover false] [color "red"], .sel [hover true] [color "red"]]]).map showRules =
-      [showRules [.sel [hover true] [color "red"]]] ∧
-    winner (denoteSheet strict [[.sel [hover false] [color "red"], .sel [hover true] [color "red"]]]) true ⟨["a"], []⟩ "color"
-      = some "red" ∧
-    winner (denoteSheet strict (linkFiles [[.sel [hover false] [color "red"], .sel [hover true] [color "red"]]])) true
-      ⟨["a"], []⟩ "color" = none := by
-  refine ⟨by decide, ?_, by decide, by decide, by decide⟩
-  intro h
-  have : (strict.sel (hover false)).understood = (strict.sel (hover true)).understood := by rw [h]
-  revert this
+    winner (denoteSheet reading (linkFiles [deadLayer])) true ⟨["a"], []⟩ "color" = some "red" ∧
+    winner (denoteSheet reading [deadLayer.tail]) true ⟨["a"], []⟩ "color" = some "blue" ∧
+    (linkFiles [[.sel [[⟨0, 0, none, [.pseudoList "is" "" true]⟩]] [color "red"]]]).map showRules = [showRules []] := by
   decide
+
+/-- REPAIRED: `a:hover{color:red}  a:hover(){color:red}` – `Equal` now tells "no arguments" from "empty argument
+list", both rules are kept, and the user agent of `reading` (which rejects `:hover()`) still styles `a:hover`.
+Removing the first copy would have lost the style. -/
+def hover (hasArgs : Bool) : Complex := [⟨0, 0, none, [.cls "a", .pseudo "hover" hasArgs "" false]⟩]
+set_option maxRecDepth 8192 in
+example : complexEq (hover false) (hover true) = false ∧
+    (reading.sel (hover false)).understood = true ∧ (reading.sel (hover true)).understood = false ∧
+    (linkFiles [[.sel [hover false] [color "red"], .sel [hover true] [color "red"]]]).map showRules =
+      [showRules [.sel [hover false] [color "red"], .sel [hover true] [color "red"]]] ∧
+    winner (denoteSheet reading [[.sel [hover false] [color "red"], .sel [hover true] [color "red"]]]) true ⟨["a"], []⟩ "color"
+      = some "red" ∧
+    winner (denoteSheet reading (linkFiles [[.sel [hover false] [color "red"], .sel [hover true] [color "red"]]])) true
+      ⟨["a"], []⟩ "color" = some "red" ∧
+    winner (denoteSheet reading [[.sel [hover true] [color "red"]]]) true ⟨["a"], []⟩ "color" = none := by decide
 
 end Examples
 
